@@ -303,6 +303,8 @@ def run(ctx):
     m3 = need(ctx, "From<u32> for MemoryAreaTypeId", impl_trait_ref="core::convert::From<u32>", impl_self=MID, name="from")
     m4 = need(ctx, "From<MemoryAreaTypeId> for u32", impl_trait_ref="core::convert::From<%s>" % MID, impl_self="u32", name="from")
     lay = F.adts.get(MID)
+    if lay is None:
+        ctx.fail("ANCHOR", "MemoryAreaTypeId", "the type MemoryAreaTypeId exists", "", "missing")
     if lay is not None:
         good = (lay["size"] == 4 and lay["niche"] is None and len(lay["fields"]) == 1 and lay["fields"][0]["ty"] == "u32"
                 and lay["fields"][0]["off"] == 0)
@@ -434,6 +436,8 @@ def run(ctx):
                 pass
     # enum discriminants of ElfSectionType as documented
     est = F.adts.get("multiboot2::elf_sections::ElfSectionType")
+    if not est:
+        ctx.fail("ANCHOR", "ElfSectionType", "the enum ElfSectionType exists", "", "missing")
     if est:
         want = dict((v, k) for k, v in S.ELF_SECTION_TYPES.items())
         want["EnvironmentSpecific"] = 0x6000_0000
@@ -447,6 +451,8 @@ def run(ctx):
     if fb:
         fb_table(ctx, fb)
     fbt = F.adts.get("multiboot2::framebuffer::FramebufferTypeId")
+    if not fbt:
+        ctx.fail("ANCHOR", "FramebufferTypeId", "the enum FramebufferTypeId exists", "", "missing")
     if fbt:
         got = {v["discr"]: v["name"] for v in fbt["variants"]}
         ctx.check(got == S.FRAMEBUFFER_TYPES, "LAYOUT", "FramebufferTypeId:discriminants",
